@@ -7,14 +7,15 @@ Mirrors (paths relative to `/repo`)
 * `src/transform/SmartRotation3D.cpp:24-37, 57-113`  constructor (all per-axis matrices start as `Identity()`),
   `init` (only the rotating 2×2 block of each is overwritten), `dRdAngle{X,Y,Z}_`
 * `src/transform/SmartRotation3D.cpp:136-143`         `dRTdAngles`
-* `src/geometry/Pose3D.cpp:67-120`                    `operator*(Affine3d, Pose3D)`: the 6×6 Jacobian and `J C Jᵀ`
+* `src/geometry/Pose3D.cpp:67-124`                    `operator*(Affine3d, Pose3D)`: the 6×6 Jacobian and `J C Jᵀ`
+  (as repaired by /repo commit 67bbb47; the Jacobian it replaced is kept as `jacobianBeforeFix` for the negative theorems)
 * `src/regression/leastsquares/LeastSquares.cpp:214-219, 236-244`  `computeEstimateCovariance`, `computeJTJ_`
 
-Besides the code as written, this file defines what the derivatives *should* be (`trueDerivs`,
-`jacobianTrue`): the entrywise differentiated matrices.  They are used by the theorems (C12 states how
+Besides `SmartRotation3D`'s matrices as the code builds them, this file defines what the derivatives of `R`
+*should* be (`trueDerivs`: the entrywise differentiated matrices).  They are used by the theorems (C12 states how
 the code deviates from them) and printed by the driver next to the code's values, where the harness prints
 finite differences of the implementation's own maps — so the correspondence check also validates that
-these "should be" definitions are the derivatives of what the C++ computes.
+these "should be" definitions, and the pose Jacobian, are the derivatives of what the C++ computes.
 
 External routine: the inverse of `JᵀJ` (`LDLT::solve(Identity)` resp. the SVD pseudo-inverse) is the
 parameter `inv` of `lsqCovariance`.
@@ -103,108 +104,103 @@ def dRTdAngles (s : Smart α) (t : Vec 3 α) : Tab 3 3 α :=
   let c2 := vtab (mulVec3 s.dRdZ.get t)                                       -- :141
   tab (fun i j => match j with | 0 => c0.get i | 1 => c1.get i | 2 => c2.get i)
 
-/-! ### The pose covariance of `operator*(Affine3d, Pose3D)` -/
-
-/-- Eigen's 3-term dot product (`redux` unrolled as `e₀ + (e₁ + e₂)`) -/
-def dot3 (a b : Vec 3 α) : α := a 0 * b 0 + (a 1 * b 1 + a 2 * b 2)
+/-! ### The pose covariance of `operator*(Affine3d, Pose3D)` (Pose3D.cpp:67-124, as repaired by /repo 67bbb47) -/
 
 def zero : α := ((0 : Nat) : α)
 
-/-- the 6×6 Jacobian exactly as written in Pose3D.cpp:75-113.
-    `R`: `affine.rotation()`, `rotation = R * smartRotation.R()`, `dX dY dZ`: `smartRotation.dRdAngleAround{X,Y,Z}Axis()` -/
-def jacobianCode (R rotation dX dY dZ : Mat 3 3 α) : Tab 6 6 α :=
-  let r21 := rotation 2 1                                                      -- :79
-  let r22 := rotation 2 2                                                      -- :80
-  let a21 := r22 / (r21 * r21 + r22 * r22)                                     -- :81
-  let a22 := r21 / (r21 * r21 + r22 * r22)                                     -- :82
-  let rollRow (d : Mat 3 3 α) : α :=                                           -- :83-91
-    dot3 (fun k => R 2 k) (fun k => a21 * d k 1 - a22 * d k 2)
-  let r20 := rotation 2 0                                                      -- :95
-  let a20 := ((1 : Nat) : α) / (((1 : Nat) : α) - r20 * r20)                   -- :96
-  let pitchRow (d : Mat 3 3 α) : α :=                                          -- :97-99
-    dot3 (fun k => R 2 k) (fun k => a20 * d k 0)
-  let r10 := R 1 0                                                             -- :103  (the affine's entry)
-  let r00 := R 0 0                                                             -- :104
-  let a10 := r00 / (r00 * r00 + r10 * r10)                                     -- :105
-  let a00 := r10 / (r00 * r00 + r10 * r10)                                     -- :106
-  let yawRow (d : Mat 3 3 α) : α :=                                            -- :108-113
-    dot3 (fun k => -a00 * rotation 0 k + a10 * rotation 1 k) (fun k => d k 0)
-  let j33 := rollRow dX; let j34 := rollRow dY; let j35 := rollRow dZ
-  let j43 := pitchRow dX; let j44 := pitchRow dY; let j45 := pitchRow dZ
-  let j53 := yawRow dY                                                         -- :108-109  (Y matrix in column 3)
-  let j54 := yawRow dX                                                         -- :110-111  (X matrix in column 4)
-  let j55 := yawRow dZ                                                         -- :112-113
-  tab (fun i j =>
-    match i, j with
-    | 0, 0 => rotation 0 0 | 0, 1 => rotation 0 1 | 0, 2 => rotation 0 2      -- :76  block<3,3>(0,0) = rotation
-    | 1, 0 => rotation 1 0 | 1, 1 => rotation 1 1 | 1, 2 => rotation 1 2
-    | 2, 0 => rotation 2 0 | 2, 1 => rotation 2 1 | 2, 2 => rotation 2 2
-    | 3, 3 => j33 | 3, 4 => j34 | 3, 5 => j35
-    | 4, 3 => j43 | 4, 4 => j44 | 4, 5 => j45
-    | 5, 3 => j53 | 5, 4 => j54 | 5, 5 => j55
-    | _, _ => zero)                                                            -- :75  Matrix6d::Zero()
+/-- `dRotation[k] = R * ∂(Rz Ry Rx)/∂angle_k` (Pose3D.cpp:78-97).  The elementary rotations `Rx Ry Rz` and their
+    derivatives `dRx dRy dRz` are written out entry by entry in the C++ (lines 86-91): the same values as
+    `rotX/rotY/rotZ` and `dRot?True`; the products are evaluated as `R * ((Rz * Ry) * dRx)` etc. -/
+def dRotation (R : Mat 3 3 α) (angles : Vec 3 α) : Tab 3 3 α × Tab 3 3 α × Tab 3 3 α :=
+  let (dX, dY, dZ) := trueDerivs angles                                       -- :79-91, :95-97 inner products
+  (tab (mul3 R dX.get), tab (mul3 R dY.get), tab (mul3 R dZ.get))             -- :94-97
 
-/-- the Jacobian of the library's own pose map `(p, angles) ↦ (R p + T, rotation3DToEulerAngles (R · Rz Ry Rx))`
-    obtained by differentiating it entry by entry (chain rule through `atan2` and `asin`).
-    `M = R · Rz Ry Rx`; `dM k = R · ∂(Rz Ry Rx)/∂angle_k` with the TRUE derivatives.
-    Written in the arithmetic form of the proposed repair (`tools/prompts/pose3d_covariance_fix.diff`), so that
-    it is also the model of the repaired `operator*`. -/
-def jacobianTrue (R M : Mat 3 3 α) (dM : Fin 3 → Mat 3 3 α) : Tab 6 6 α :=
-  let r21 := M 2 1; let r22 := M 2 2; let r20 := M 2 0; let r10 := M 1 0; let r00 := M 0 0
-  -- roll' = atan2(M21, M22):  (M22 dM21 - M21 dM22) / (M21² + M22²)
-  let rollRow (d : Mat 3 3 α) : α := (r22 * d 2 1 - r21 * d 2 2) / (r21 * r21 + r22 * r22)
-  -- pitch' = -asin(M20):  -dM20 / sqrt(1 - M20²)
-  let pitchRow (d : Mat 3 3 α) : α := -(d 2 0) / Trans.sqrt (((1 : Nat) : α) - r20 * r20)
-  -- yaw' = atan2(M10, M00):  (M00 dM10 - M10 dM00) / (M00² + M10²)
-  let yawRow (d : Mat 3 3 α) : α := (r00 * d 1 0 - r10 * d 0 0) / (r00 * r00 + r10 * r10)
-  let j33 := rollRow (dM 0); let j34 := rollRow (dM 1); let j35 := rollRow (dM 2)
-  let j43 := pitchRow (dM 0); let j44 := pitchRow (dM 1); let j45 := pitchRow (dM 2)
-  let j53 := yawRow (dM 0); let j54 := yawRow (dM 1); let j55 := yawRow (dM 2)
+/-- the 6×6 Jacobian of Pose3D.cpp:99-117: `J.block<3,3>(0,0) = R`; for each angle `k` the three rows obtained by
+    the chain rule through `atan2(r21, r22)`, `-asin(r20)`, `atan2(r10, r00)` with `r = rotation = R · Rz Ry Rx`
+    and `dr = dRotation[k]`. -/
+def jacobian (R rotation : Mat 3 3 α) (dRot : Fin 3 → Mat 3 3 α) : Tab 6 6 α :=
+  let r21 := rotation 2 1                                                      -- :103
+  let r22 := rotation 2 2                                                      -- :104
+  let r20 := rotation 2 0                                                      -- :105
+  let r10 := rotation 1 0                                                      -- :106
+  let r00 := rotation 0 0                                                      -- :107
+  let rollRow (dr : Mat 3 3 α) : α := (r22 * dr 2 1 - r21 * dr 2 2) / (r21 * r21 + r22 * r22)            -- :112
+  let pitchRow (dr : Mat 3 3 α) : α := -(dr 2 0) / Trans.sqrt (((1 : Nat) : α) - r20 * r20)               -- :114
+  let yawRow (dr : Mat 3 3 α) : α := (r00 * dr 1 0 - r10 * dr 0 0) / (r00 * r00 + r10 * r10)              -- :116
+  let j33 := rollRow (dRot 0); let j34 := rollRow (dRot 1); let j35 := rollRow (dRot 2)
+  let j43 := pitchRow (dRot 0); let j44 := pitchRow (dRot 1); let j45 := pitchRow (dRot 2)
+  let j53 := yawRow (dRot 0); let j54 := yawRow (dRot 1); let j55 := yawRow (dRot 2)
   tab (fun i j =>
     match i, j with
-    | 0, 0 => R 0 0 | 0, 1 => R 0 1 | 0, 2 => R 0 2                          -- d(R p + T)/dp = R
+    | 0, 0 => R 0 0 | 0, 1 => R 0 1 | 0, 2 => R 0 2                          -- :101  block<3,3>(0,0) = R
     | 1, 0 => R 1 0 | 1, 1 => R 1 1 | 1, 2 => R 1 2
     | 2, 0 => R 2 0 | 2, 1 => R 2 1 | 2, 2 => R 2 2
     | 3, 3 => j33 | 3, 4 => j34 | 3, 5 => j35
     | 4, 3 => j43 | 4, 4 => j44 | 4, 5 => j45
     | 5, 3 => j53 | 5, 4 => j54 | 5, 5 => j55
-    | _, _ => zero)
+    | _, _ => zero)                                                            -- :100  Matrix6d::Zero()
 
 /-- 6-term sum in Eigen's coefficient order -/
 def sum6 (f : Fin 6 → α) : α := f 0 + f 1 + f 2 + f 3 + f 4 + f 5
 
-/-- `J * C * J.transpose()` (Pose3D.cpp:118); the inner product is evaluated into a temporary first -/
+/-- `J * C * J.transpose()` (Pose3D.cpp:122); the inner product is evaluated into a temporary first -/
 def propagate (J C : Mat 6 6 α) : Tab 6 6 α :=
   let jc := tab (fun i j => sum6 (fun k => J i k * C k j))
   tab (fun i j => sum6 (fun k => jc.get i k * J j k))
 
-/-- `operator*(Affine3d, Pose3D)` complete, as written (Pose3D.cpp:67-120):
-    position, orientation (as in `Pose.poseMulMean`), covariance `J C Jᵀ` with the Jacobian of lines 75-113 -/
-def poseMulCode (rotOf : Mat 3 3 α → Mat 3 3 α) (lin : Mat 3 3 α) (trans : Vec 3 α)
-    (position orientation : Vec 3 α) (cov : Mat 6 6 α) : VTab 3 α × VTab 3 α × Tab 6 6 α :=
+/-- `operator*(Affine3d, Pose3D)` complete (Pose3D.cpp:67-124): position, orientation (as in `Pose.poseMulMean`),
+    covariance `J C Jᵀ`; the Jacobian is returned as well (the driver prints it next to the harness' finite
+    differences of the C++ pose map). -/
+def poseMul (rotOf : Mat 3 3 α → Mat 3 3 α) (lin : Mat 3 3 α) (trans : Vec 3 α)
+    (position orientation : Vec 3 α) (cov : Mat 6 6 α) : VTab 3 α × VTab 3 α × Tab 6 6 α × Tab 6 6 α :=
   let s := smartInit orientation                                              -- :69
   let R := tab (rotOf lin)                                                    -- :71
   let rotation := tab (mul3 R.get s.R.get)                                    -- :73
-  let J := jacobianCode R.get rotation.get s.dRdX.get s.dRdY.get s.dRdZ.get   -- :75-113
+  let (d0, d1, d2) := dRotation R.get orientation                             -- :78-97
+  let J := jacobian R.get rotation.get (fun k => match k with | 0 => d0.get | 1 => d1.get | 2 => d2.get)   -- :99-117
   let Rp := vtab (mulVec3 R.get position)
-  let pos := vtab (fun i => Rp.get i + trans i)                               -- :116
-  let ori := vtab (rotation3DToEulerAngles rotation.get)                      -- :117
-  (pos, ori, propagate J.get cov)                                             -- :118
+  let pos := vtab (fun i => Rp.get i + trans i)                               -- :120
+  let ori := vtab (rotation3DToEulerAngles rotation.get)                      -- :121
+  (pos, ori, propagate J.get cov, J)                                          -- :122
 
-/-- the same map with the true Jacobian (what the covariance should be; also the model of the repaired code
-    up to the order of floating-point operations) -/
-def poseMulTrue (rotOf : Mat 3 3 α → Mat 3 3 α) (lin : Mat 3 3 α) (trans : Vec 3 α)
-    (position orientation : Vec 3 α) (cov : Mat 6 6 α) : VTab 3 α × VTab 3 α × Tab 6 6 α × Tab 6 6 α :=
-  let s := smartInit orientation
-  let (dX, dY, dZ) := trueDerivs orientation
-  let R := tab (rotOf lin)
-  let M := tab (mul3 R.get s.R.get)
-  let dM0 := tab (mul3 R.get dX.get); let dM1 := tab (mul3 R.get dY.get); let dM2 := tab (mul3 R.get dZ.get)
-  let J := jacobianTrue R.get M.get (fun k => match k with | 0 => dM0.get | 1 => dM1.get | 2 => dM2.get)
-  let Rp := vtab (mulVec3 R.get position)
-  let pos := vtab (fun i => Rp.get i + trans i)
-  let ori := vtab (rotation3DToEulerAngles M.get)
-  (pos, ori, propagate J.get cov, J)
+/-! #### History: the Jacobian before /repo 67bbb47 (kept for the negative theorems of C12 only; not executed) -/
+
+/-- Eigen's 3-term dot product (`redux` unrolled as `e₀ + (e₁ + e₂)`) -/
+def dot3 (a b : Vec 3 α) : α := a 0 * b 0 + (a 1 * b 1 + a 2 * b 2)
+
+/-- the 6×6 Jacobian exactly as it was written in Pose3D.cpp:75-113 before the repair.
+    `R`: `affine.rotation()`, `rotation = R * smartRotation.R()`, `dX dY dZ`: `smartRotation.dRdAngleAround{X,Y,Z}Axis()` -/
+def jacobianBeforeFix (R rotation dX dY dZ : Mat 3 3 α) : Tab 6 6 α :=
+  let r21 := rotation 2 1
+  let r22 := rotation 2 2
+  let a21 := r22 / (r21 * r21 + r22 * r22)
+  let a22 := r21 / (r21 * r21 + r22 * r22)
+  let rollRow (d : Mat 3 3 α) : α :=
+    dot3 (fun k => R 2 k) (fun k => a21 * d k 1 - a22 * d k 2)
+  let r20 := rotation 2 0
+  let a20 := ((1 : Nat) : α) / (((1 : Nat) : α) - r20 * r20)
+  let pitchRow (d : Mat 3 3 α) : α :=
+    dot3 (fun k => R 2 k) (fun k => a20 * d k 0)
+  let r10 := R 1 0                                                             -- (the affine's entry, not the product's)
+  let r00 := R 0 0
+  let a10 := r00 / (r00 * r00 + r10 * r10)
+  let a00 := r10 / (r00 * r00 + r10 * r10)
+  let yawRow (d : Mat 3 3 α) : α :=
+    dot3 (fun k => -a00 * rotation 0 k + a10 * rotation 1 k) (fun k => d k 0)
+  let j33 := rollRow dX; let j34 := rollRow dY; let j35 := rollRow dZ
+  let j43 := pitchRow dX; let j44 := pitchRow dY; let j45 := pitchRow dZ
+  let j53 := yawRow dY                                                         -- (Y matrix in column 3)
+  let j54 := yawRow dX                                                         -- (X matrix in column 4)
+  let j55 := yawRow dZ
+  tab (fun i j =>
+    match i, j with
+    | 0, 0 => rotation 0 0 | 0, 1 => rotation 0 1 | 0, 2 => rotation 0 2      -- block<3,3>(0,0) = rotation
+    | 1, 0 => rotation 1 0 | 1, 1 => rotation 1 1 | 1, 2 => rotation 1 2
+    | 2, 0 => rotation 2 0 | 2, 1 => rotation 2 1 | 2, 2 => rotation 2 2
+    | 3, 3 => j33 | 3, 4 => j34 | 3, 5 => j35
+    | 4, 3 => j43 | 4, 4 => j44 | 4, 5 => j45
+    | 5, 3 => j53 | 5, 4 => j54 | 5, 5 => j55
+    | _, _ => zero)
 end
 
 /-! ### Least-squares estimate covariance -/
